@@ -695,6 +695,9 @@ class Interp(ExprEnc):
         for a in args:
             if a.name.lower() in absent:
                 fr.vars[a.name.lower()] = Absent()
+        argnames = {a.name.lower() for a in args}
+        params = [v for v in routine.variables if getattr(v.type, 'parameter', False) and v.name.lower() not in argnames]
+        self.declare(params, fr, is_input=False)      # named constants may size the arguments
         self.declare(args, fr, is_input=True)
         self.collect_stmtfuncs(routine, fr)
         self.declare(routine.variables, fr, is_input=False)
@@ -738,6 +741,11 @@ class Interp(ExprEnc):
             amap[str(k).lower()] = a
         if len(arguments) > len(dummies):
             raise NotEncoded('more actual than dummy arguments')
+        dnames = {d.name.lower() for d in dummies}
+        params = [v for v in callee.variables if getattr(v.type, 'parameter', False) and v.name.lower() not in dnames]
+        self.frame = fr
+        self.declare(params, fr, is_input=False)      # named constants may size the dummies
+        self.frame = caller
         # scalars first
         order = [d for d in dummies if not isinstance(d, sym.Array)] + [d for d in dummies if isinstance(d, sym.Array)]
         for d in order:
@@ -1046,9 +1054,16 @@ class Interp(ExprEnc):
             return
         if isinstance(n, (ir.ImplicitStmt, ir.SaveStmt, ir.PublicStmt, ir.PrivateStmt, ir.ContainsStmt, ir.FormatStmt)):
             return
-        if isinstance(n, ir.Intrinsic):
-            t = (n.text or '').strip().lower()
+        if isinstance(n, ir.GenericStmt):
+            t = str(n.text or '').strip().lower()
             if t.startswith(('implicit', 'contains', 'save', 'format', 'external', 'intrinsic')):
+                return
+            if t.startswith(('print', 'write')):
+                self.outputs.append((pc, [('str', t)]))      # free-text output statement: recorded verbatim
+                return
+            if t.startswith(('stop', 'error stop')):
+                self.aborted = z3.Or(self.aborted, pc)
+                fr.returned = z3.Or(fr.returned, pc)
                 return
             raise NotEncoded(f'intrinsic statement {n.text!r}')
         raise NotEncoded(f'IR node {type(n).__name__}')
